@@ -1,1 +1,2 @@
--- Proofs
+import Proofs.RSGeneric
+import Proofs.RSField
